@@ -2,6 +2,7 @@
 C09 — sessions are granted only to authorised keys and the fixed service users.
 -/
 import DtailModel.Model.Auth
+import DtailModel.Lemmas.GenAuth
 namespace Dtail.C09
 open Dtail
 
@@ -87,6 +88,56 @@ theorem C09_health_only (name : Bytes) :
 theorem C09_service_users_distinct :
     Facts.healthUserBytes ≠ Facts.scheduleUserBytes ∧ Facts.healthUserBytes ≠ Facts.continuousUserBytes
     ∧ Facts.scheduleUserBytes ≠ Facts.continuousUserBytes := by decide
+
+/-- **Tie G: the password callback as translated from the working tree grants exactly the three documented cases.**
+    `Server.Callback` and `backgroundCanSSH` of internal/server/server.go, translated on this run with every index
+    expression guarded, never panic, and return a nil error — the login is granted — exactly when `user.New` accepted the
+    user and: it is the health user with the health password, or the schedule (continuous) user whose password is the name
+    of a configured scheduled (continuous) job one of whose allowed hosts resolves to the address the connection comes
+    from (what stands before the first ':' of `RemoteAddr().String()`).  For every connection, password, job configuration
+    and behaviour of `user.New` and `net.LookupIP` (a failing lookup yields no address). -/
+theorem C09_generated_callback_grants_exactly (ext : Go.Ext) (s : Gen.Auth.Server) (c : Go.GoConnMeta) (pw : Bytes) :
+    ∃ granted : Bool, GenAuth.granted (Gen.Auth.Server.Callback ext s c pw) = some granted ∧
+      (granted = true ↔
+        (ext.userNew c.user c.remoteAddr).2 = none ∧
+        let user := (ext.userNew c.user c.remoteAddr).1.Name
+        let ip := GenAuth.remoteIPOf c
+        ((user = Facts.healthUserBytes ∧ pw = Facts.healthUserBytes)
+          ∨ (user = Facts.scheduleUserBytes ∧
+              ∃ j ∈ ext.schedule, pw = j.Name ∧ ∃ a ∈ j.AllowFrom, ip ∈ GenAuth.lookupOf ext a)
+          ∨ (user = Facts.continuousUserBytes ∧
+              ∃ j ∈ ext.continuous, pw = j.Name ∧ ∃ a ∈ j.AllowFrom, ip ∈ GenAuth.lookupOf ext a))) := by
+  refine ⟨_, GenAuth.Callback_refines ext s c pw, ?_⟩
+  rw [Bool.and_eq_true, C09_password_decision]
+  simp only [Option.isNone_iff_eq_none, List.mem_map, GenAuth.jobOf]
+  constructor
+  · rintro ⟨h0, h⟩
+    refine ⟨h0, ?_⟩
+    rcases h with h | ⟨hu, j, ⟨g, hg, rfl⟩, hpw, ha⟩ | ⟨hu, j, ⟨g, hg, rfl⟩, hpw, ha⟩
+    · exact Or.inl h
+    · exact Or.inr (Or.inl ⟨hu, g, hg, hpw, ha⟩)
+    · exact Or.inr (Or.inr ⟨hu, g, hg, hpw, ha⟩)
+  · rintro ⟨h0, h⟩
+    refine ⟨h0, ?_⟩
+    rcases h with h | ⟨hu, g, hg, hpw, ha⟩ | ⟨hu, g, hg, hpw, ha⟩
+    · exact Or.inl h
+    · exact Or.inr (Or.inl ⟨hu, _, ⟨g, hg, rfl⟩, hpw, ha⟩)
+    · exact Or.inr (Or.inr ⟨hu, _, ⟨g, hg, rfl⟩, hpw, ha⟩)
+
+/-- the translated `backgroundCanSSH` is the model's function, whatever `net.LookupIP` does -/
+theorem C09_generated_backgroundCanSSH_refines_model (ext : Go.Ext) (s : Gen.Auth.Server) (u : Go.GoUser) (pw ip : Bytes)
+    (j : Go.GoJob) :
+    Gen.Auth.Server.backgroundCanSSH ext s u pw ip j.Name j.AllowFrom
+      = (s, backgroundCanSSH (GenAuth.lookupOf ext) pw ip (GenAuth.jobOf j)) :=
+  GenAuth.backgroundCanSSH_refines ext s u pw ip j
+
+/-- non-vacuity: a configured scheduled job, its password, an allowed address: the translated callback grants; with a
+    different address it does not -/
+example :
+    let ext : Go.Ext := { parseFloat := fun _ => (0, none), schedule := [⟨b!"job1", [b!"10.0.0.1"]⟩] }
+    GenAuth.granted (Gen.Auth.Server.Callback ext {} ⟨Facts.scheduleUserBytes, b!"10.0.0.1:4711"⟩ (b!"job1")) = some true ∧
+    GenAuth.granted (Gen.Auth.Server.Callback ext {} ⟨Facts.scheduleUserBytes, b!"10.0.0.2:4711"⟩ (b!"job1")) = some false := by
+  decide
 
 /-- non-vacuity: a file with a comment after its last key (the input that used to fail) -/
 example : verifyAuthorizedKeys (fun l => if l.head? = some 107 then some l else none)
